@@ -12,7 +12,7 @@ use std::collections::HashMap;
 
 pub const LEVEL: &str = "exploration";
 pub const EXHAUSTIVE: bool = false;
-pub const RULE: &str = "words W = K.s typed key by key, stratified over ALL 737 suffix keys s (every suffix key meets N bases: quick N=24, thorough N=400) with K drawn from: every lower-case string of length 1..2, every bundled auto-correct key, generated Avro-biased strings of 2..5 letters; 1 in 4 wrapped in punctuation; plus generated (K, s, wrapper) triples. Soundness (every list after every key): each candidate that is not the auto-correct entry, the transliteration, a table emoji or the raw text must be a dictionary word matching the okkhor pattern of the word, or b joined to suffix[s'] for a split W = K'.s' where b is a dictionary match / the auto-correct entry of K' (the inverse of the three joining rules enumerates every possible b). Completeness (|W| > 2): the direct candidates offered after typing K (judged by the same independent test) must all be offered in joined form after s is typed in the same context: join inserts U+09DF between a final vowel(sign) and an initial vowel sign, turns final U+09CE into U+09A4 and final U+0982 into U+0999, else concatenates. Non-trivial: K has >= 1 direct candidate; distinct by (K, s, wrapper); the evidence lists the joining-rule combinations met.";
+pub const RULE: &str = "words W = K.s typed key by key, stratified over ALL 737 suffix keys s (every suffix key meets N bases: quick N=24, thorough N=400) with K drawn from: every lower-case string of length 1..2, every bundled auto-correct key, generated Avro-biased strings of 2..5 letters; 1 in 4 wrapped in punctuation; plus generated (K, s, wrapper) triples. Soundness (every list after every key): each candidate that is not the auto-correct entry, the transliteration, a table emoji or the raw text must be a dictionary word matching the okkhor pattern of the word, or b joined to suffix[s'] for a split W = K'.s' where b is a dictionary match / the auto-correct entry of K' (the inverse of the three joining rules enumerates every possible b). Completeness (|W| > 2): the direct candidates offered after typing K (judged by the same independent test) must all be offered in joined form after s is typed in the same context: join inserts U+09DF between a final vowel(sign) and an initial vowel sign, turns final U+09CE into U+09A4 and final U+0982 into U+0999, else concatenates. Non-trivial: K has >= 1 direct candidate; distinct by (K, s, wrapper); the evidence lists the joining-rule combinations met. Plus: a base known only to the USER's auto-correct list, typed with suffix keys before and after its entry is changed / removed / added (file edited, update-engine while idle): soundness and completeness judged against the list in force.";
 pub const ASSUMPTIONS: &[&str] = &[
     "dictionary / suffix / auto-correct JSON read independently; okkhor regex",
     "'final vowel' includes vowel signs (DESIGN section 6)",
